@@ -17,11 +17,14 @@ pub fn impl_id13(code: u16) -> Option<Result<u16, String>> {
     guarded(|| IdentityCode::from_bytes((&bytes, 0)).map(|(_, a)| a.0).map_err(|e| e.to_string()))
 }
 
-/// `decode_ac12` is private: reach it through the real BDS 0,5 reader (TC=11, 56-bit ME).
+/// `decode_ac12` is private: reach it through the real BDS 0,5 reader (56-bit ME).  The type code runs over
+/// all thirteen airborne-position codes (9..18 barometric, 20..22 GNSS height) with the altitude code: the
+/// altitude must not depend on it.
 pub fn impl_ac12(code: u16) -> Option<Result<Option<u16>, String>> {
-    // tc(5)=11 ss(2)=0 saf(1)=0 alt(12) t(1) f(1) lat(17) lon(17)
+    // tc(5) ss(2)=0 saf(1)=0 alt(12) t(1) f(1) lat(17) lon(17)
+    const TCS: [u64; 13] = [11, 9, 10, 12, 13, 14, 15, 16, 17, 18, 20, 21, 22];
     let mut me: u64 = 0;
-    me |= 11u64 << 51;
+    me |= TCS[(code as usize / 7) % 13] << 51;
     me |= (code as u64 & 0xfff) << 36;
     let bytes: Vec<u8> = (0..7).map(|i| (me >> (48 - 8 * i)) as u8).collect();
     guarded(|| AirbornePosition::from_bytes((&bytes, 0)).map(|(_, a)| a.alt).map_err(|e| e.to_string()))
